@@ -80,3 +80,16 @@ Print Assumptions C04_check_withdraw.
 Theorem C04_check_reward_once init steps : c04_hist_check (Hist init steps) = [] -> NoDup (reward_claims steps).
 Proof. exact (c04_hist_once init steps). Qed.
 Print Assumptions C04_check_reward_once.
+
+(* the voter rewards paid out for a dispute never exceed the pot its execution set aside *)
+Theorem C04_check_voter_pot init steps :
+  c04_hist_check (Hist init steps) = [] ->
+  forall id pot paid, In (id, pot, paid) (reward_payments init steps) -> paid_for id (reward_payments init steps) <= pot.
+Proof. exact (c04_hist_pots init steps). Qed.
+Print Assumptions C04_check_voter_pot.
+
+(* a deposit claim (accepted or not) leaves the bridge account as it was: what it minted it paid out *)
+Theorem C04_check_claim_deposit before signer res params after decs :
+  c04_step before (Step "ClaimDeposits" signer res params after decs) = [] -> sp_bridge after = sp_bridge before.
+Proof. exact (c04_step_sound_claim_deposit before signer res params after decs). Qed.
+Print Assumptions C04_check_claim_deposit.
